@@ -1,3 +1,4 @@
+import errno
 import logging
 import os
 import stat
@@ -106,10 +107,24 @@ def _create_files(  # noqa: C901, PLR0912, PLR0913
             continue
 
         src_fs = storage_obj.fs
-        entries, src_paths, dest_paths = zip(*args)
 
         if links is None and isinstance(storage_obj, ObjectStorage):
             links = storage_obj.odb.cache_types
+
+        if links and "symlink" in links:
+            # a symlink is created whether or not its source exists
+            found = []
+            for arg in args:
+                if src_fs.exists(arg[1]):
+                    found.append(arg)
+                else:
+                    exc = FileNotFoundError(errno.ENOENT, os.strerror(errno.ENOENT))
+                    onerror(arg[1], arg[2], exc)
+            args = found
+            if not args:
+                continue
+
+        entries, src_paths, dest_paths = zip(*args)
 
         # parents that exist only implicitly in the index (no directory entry)
         # are not in dirs_create, and linking does not create them
